@@ -278,7 +278,7 @@ def check(run):
             emeta.append((i, root))
     cq = common.run_coq_cases(IMPORTS, exprs, tag="C07")
     for (i, root), out in zip(emeta, cq):
-        if norm_ir(json.loads(out)) != norm_ir(root) if not out.startswith("!") else True:
+        if norm_ir(json.loads(out, strict=False)) != norm_ir(root) if not out.startswith("!") else True:
             disagree.append(("materialisation of basic semtypes", {"expr": cases[i][1], "impl": root, "model": out[:600]}))
     cov = run.coverage
     cov["evaluations"] = len(cases)
